@@ -16,6 +16,7 @@ pub struct ExSeekFrom(std::io::SeekFrom);
 
 #[verifier::external_body]
 struct SError { _p: u8 }
+//@ stubs sst/src/lib.rs -> SError
 #[verifier::external_body]
 struct IoError { _p: u8 }
 // BufReader<R: Read + Seek>: opaque; its calls may return anything
